@@ -95,10 +95,14 @@ def settle(ctx, cases, corr_suffix=""):
 def run(ctx, bt):
     n = ctx.scale(4400, 48000)
     run_cases(ctx, bt, n)
+    # the weights at work: complete backtests whose stacks weigh equally / by a specified table / by dated target frames, executed end
+    # to end by the model
+    from .. import whole_run as W
+    W.whole_run_protocol(ctx, bt, ctx.scale(25, 500), "whole-run-x[C15]:weights-inside-backtests", extended=True)
 
 
 def search(ctx, bt):
-    bad = sorted({d["replay_data"]["kind"] for d in ctx.disagreements})
+    bad = sorted({d["replay_data"]["kind"] for d in ctx.disagreements if isinstance(d.get("replay_data"), dict) and "kind" in d["replay_data"]})
     ctx.notes.append("search biased to: %s" % bad)
     run_cases(ctx, bt, ctx.scale(4000, 30000), only=bad or None, corr_suffix=":search")
 
